@@ -19,8 +19,9 @@ WS = ("168.63.129.16", 80)
 GA = ("168.63.129.16", 32526)
 IMDS = ("169.254.169.254", 80)
 OTHER = ("10.77.0.1", 8080)
+OTHER2 = ("10.77.0.1", 8081)      # same address, another port (like WireServer :80 / HostGAPlugin :32526)
 SELF = ("127.0.0.1", 3080)
-HOSTS = {"ws": WS, "ga": GA, "imds": IMDS, "other": OTHER}
+HOSTS = {"ws": WS, "ga": GA, "imds": IMDS, "other": OTHER, "other2": OTHER2}
 PROXY = ("127.0.0.1", 3080)
 
 
@@ -285,7 +286,7 @@ class MockHosts:
                 return False
         except OSError:
             return False
-        return framing != "close"
+        return framing != "close" and not plan.get("close")
 
     def take(self):
         with self.lock:
